@@ -80,8 +80,10 @@ template<class C> struct Seg {
     return w;
   }
   bool canUpdate(int i) { return sk[i] && total[i] + 1 <= MCAP && ids[i].size() < (prof[i] >= 5 ? 12u : 2500u); }
-  void opUpdate(int i, long w, bool rv) {
-    int id = nextId++; T item = C::item(id);
+  void opUpdate(int i, long w, bool rv) { opUpdateX(i, nextId++, w, rv); }
+  // the same item may be offered to several objects (an original and its restored copies in lock-step)
+  void opUpdateX(int i, int id, long w, bool rv) {
+    T item = C::item(id);
     std::string threw;
     try { if (rv) sk[i]->update(std::move(item), (double)w); else sk[i]->update(item, (double)w); }
     catch (std::exception& ex) { threw = clean(ex.what()); if (threw.empty()) threw = "exception"; }
@@ -154,8 +156,8 @@ template<class C> struct Seg {
     e.i("total", (long long)bytes.size()).i("size", (long long)blob[b].bytes.size()).i("advertised", (long long)adv)
      .bytes("img", blob[b].bytes.data(), blob[b].bytes.size()).bytes("simg", st.data(), st.size()).emit();
   }
-  void opDeser(int b, int j) {
-    bool stream = g.chance(50);
+  void opDeser(int b, int j, int path = -1) {
+    bool stream = path < 0 ? g.chance(50) : path == 1;
     std::string threw; long long consumed = -1; std::unique_ptr<SK> r; std::vector<uint8_t> re;
     try {
       if (stream) {
@@ -212,6 +214,37 @@ template<class C> struct Seg {
       else { int b = (int)g.below(NB); if (blob[b].live) { if (g.chance(30)) opDeserBad(b); int j = (int)g.below(NS); opDeser(b, j); } }
     }
     for (int i = 0; i < NS; i++) if (sk[i]) { opGetResult(i); opIterate(i); }
+  }
+  // C09 "restore, then continue" at the EDGE states: the empty sketch, exactly one item, and right after reset().
+  // The image (bytes with a header and stream form) is restored through both readers; original (slot 0) and the two
+  // restored sketches (slots 1, 2) then receive the SAME further items in lock-step (past c = k), with results and
+  // iteration on all three, are serialized again, and are used as merge operands in both directions.
+  void directedRestoreEdges() {
+    for (int state = 0; state < 3; state++) {
+      long k = state == 0 ? 3 : state == 1 ? 4 : 2;
+      opNew(0, k); prof[0] = 1;
+      if (state == 1) opUpdate(0, 5, false);
+      if (state == 2) { for (int t = 0; t < 7; t++) opUpdate(0, 1 + t % 3, false); opGetResult(0); opReset(0); }
+      opGetResult(0); opIterate(0);
+      opSer(0, 0); if (!blob[0].live) continue;
+      opDeser(0, 1, 0); opDeser(0, 2, 1);
+      for (int j = 1; j <= 2; j++) if (sk[j]) { opGetResult(j); opIterate(j); }
+      for (int t = 0; t < (int)k + 6; t++) {
+        int id = nextId++; long w = t < 2 ? 4 : g.range(1, 9); bool rv = g.chance(40);
+        for (int j = 0; j <= 2; j++) if (sk[j]) opUpdateX(j, id, w, rv);
+        if (t == 0 || t == 1 || t == (int)k || t == (int)k + 5) for (int j = 0; j <= 2; j++) if (sk[j]) { opGetResult(j); opIterate(j); }
+      }
+      for (int j = 0; j <= 2; j++) if (sk[j]) opSer(j, 1 + j);
+      // as merge operands: restored into a fresh sketch (lvalue), a fresh sketch into the other restored one (rvalue),
+      // and the original into a fresh one for comparison
+      if (sk[1]) { opNew(3, 5); for (int t = 0; t < 4; t++) opUpdate(3, g.range(1, 9), false); opMerge(3, 1, false); if (sk[3]) { opGetResult(3); opIterate(3); opUpdate(3, 2, false); if (sk[3]) opGetResult(3); } }
+      if (sk[2]) { opNew(3, 5); for (int t = 0; t < 4; t++) opUpdate(3, g.range(1, 9), false); opMerge(2, 3, true); if (sk[2]) { opGetResult(2); opIterate(2); opUpdate(2, 2, false); if (sk[2]) opGetResult(2); } }
+      if (sk[0]) { opNew(3, 5); for (int t = 0; t < 4; t++) opUpdate(3, g.range(1, 9), false); opMerge(3, 0, false); if (sk[3]) { opGetResult(3); opIterate(3); } }
+      // restored right at the edge and merged before any update
+      opNew(0, k); if (state == 1) opUpdate(0, 5, false);
+      opSer(0, 0); if (blob[0].live) { opDeser(0, 1, state % 2); if (sk[1]) { opNew(3, 6); for (int t = 0; t < 3; t++) opUpdate(3, 2, false); opMerge(1, 3, false); if (sk[1]) { opGetResult(1); opUpdate(1, 2, false); if (sk[1]) { opGetResult(1); opIterate(1); } } } }
+      for (int i = 0; i < NS; i++) drop(i);
+    }
   }
   // directed: merging an EMPTY sketch that was configured with a smaller k (both overloads, both directions)
   // merges of operands living in strongly different weight regimes: many very light items against few heavy ones
@@ -303,6 +336,10 @@ int main(int argc, char** argv) {
   random_utils::override_seed(seed);
   long segno = 0;
   if (directed) { Ev("Begin").i("seg", segno++).str("type", "i64").str("kind", "directed-empty-merge").emit(); Seg<ConvI> s(g, maxk); s.directedEmptyMerge(); }
+  if (vt::argl(argc, argv, "--edges", 1)) {
+    { Ev("Begin").i("seg", segno++).str("type", "i64").str("kind", "directed-restore-edges").emit(); Seg<ConvI> s(g, maxk); s.directedRestoreEdges(); }
+    { Ev("Begin").i("seg", segno++).str("type", "str").str("kind", "directed-restore-edges").emit(); Seg<ConvS> s(g, maxk); s.directedRestoreEdges(); }
+  }
   long regimes = vt::argl(argc, argv, "--regimes", 24);
   if (regimes > 0) {
     { Ev("Begin").i("seg", segno++).str("type", "i64").str("kind", "regimes").emit(); Seg<ConvI> s(g, maxk); s.runRegimes(regimes); }
